@@ -72,8 +72,9 @@ type harness struct {
 	timeout        bool
 	drift          int
 	closed         bool
-	inShutdown     bool  // Manager.Shutdown of a restart is in progress (it waits for the loop, hence for gated operations)
-	freeMs         int64 // milliseconds during which the harness itself held no endpoint operation at a closed gate
+	connPlan       map[string][]string // scripted outcomes of the next dials per side (after the warm-up)
+	inShutdown     bool                // Manager.Shutdown of a restart is in progress (it waits for the loop, hence for gated operations)
+	freeMs         int64               // milliseconds during which the harness itself held no endpoint operation at a closed gate
 	pendingTimeout time.Duration
 	logger         *logging.Logger
 }
@@ -285,6 +286,16 @@ func (p *handler) Connect(_ context.Context, logger *logging.Logger, url *urlpkg
 	}
 	h := p.h
 	t := h.enter(side, "Connect", false, nil)
+	h.mu.Lock()
+	planned := "ok"
+	if q := h.connPlan[side]; len(q) > 0 {
+		planned, h.connPlan[side] = q[0], q[1:]
+	}
+	h.mu.Unlock()
+	if planned == "err" {
+		h.leave(t, "err", nil)
+		return nil, errors.New("injected connection failure")
+	}
 	var inner synchronization.Endpoint
 	if h.real {
 		// the real local endpoint on the real directory; its own watching is switched off (the gate
@@ -813,6 +824,57 @@ func (h *harness) observe() {
 	})
 }
 
+// stream follows the session's state through Manager.List long polls (previousStateIndex) and journals every change
+// of (listed, status, LastError # "", SuccessfulCycles) it sees, with the tracker index it was delivered under.
+func (h *harness) stream(stop chan struct{}) {
+	var prev uint64
+	var last string
+	var cur *synchronization.Manager
+	for {
+		select {
+		case <-stop:
+			return
+		default:
+		}
+		h.mu.Lock()
+		mgr, sid, closed := h.mgr, h.session, h.closed
+		h.mu.Unlock()
+		if closed {
+			return
+		}
+		if mgr == nil || sid == "" || h.restartInFlight() {
+			time.Sleep(2 * time.Millisecond)
+			continue
+		}
+		if mgr != cur {
+			cur, prev = mgr, 0
+		}
+		ctx, cancel := context.WithTimeout(context.Background(), 500*time.Millisecond)
+		idx, states, err := mgr.List(ctx, &selection.Selection{All: true}, prev)
+		cancel()
+		if err != nil {
+			// a poll that timed out without a change, or a manager that was shut down
+			time.Sleep(2 * time.Millisecond)
+			continue
+		}
+		prev = idx
+		rec := map[string]any{"ev": "Stream", "index": int(idx), "listed": false, "status": "none", "err": false, "cycles": 0}
+		for _, st := range states {
+			if st.Session != nil && st.Session.Identifier == sid {
+				rec["listed"] = true
+				rec["status"] = statusNames[st.Status]
+				rec["err"] = st.LastError != ""
+				rec["cycles"] = int(st.SuccessfulCycles)
+			}
+		}
+		key := fmt.Sprint(rec["listed"], rec["status"], rec["err"], rec["cycles"])
+		if key != last {
+			last = key
+			h.emit(rec)
+		}
+	}
+}
+
 // ---------------------------------------------------------------- external edits
 
 // setRoot (in-memory endpoints) replaces the contents of a root.
@@ -930,6 +992,11 @@ func runCase(cs map[string]any, dir string, w io.Writer) {
 		return
 	}
 	h.mgr = mgr
+	stopStream := make(chan struct{})
+	defer close(stopStream)
+	if noStream, _ := cs["nostream"].(bool); !noStream {
+		go h.stream(stopStream)
+	}
 
 	// create the session (command 0). "warm" cases are then brought into the model's initial state: the first
 	// cycle records the ancestor, the session is paused (commands 90) and - unless the case starts paused -
@@ -971,6 +1038,20 @@ func runCase(cs map[string]any, dir string, w io.Writer) {
 		h.drift = 0
 		h.mu.Unlock()
 	}
+	// the dials the script decides about (in order, per side); everything before this point connected normally
+	plan := map[string][]string{}
+	if stepsAny, ok := cs["steps"].([]any); ok {
+		for _, sv := range stepsAny {
+			if m, ok := sv.(map[string]any); ok && m["a"] == "connect" {
+				side, _ := m["side"].(string)
+				out, _ := m["out"].(string)
+				plan[side] = append(plan[side], out)
+			}
+		}
+	}
+	h.mu.Lock()
+	h.connPlan = plan
+	h.mu.Unlock()
 	if pt := step(cs).num("pt"); pt > 0 {
 		h.pendingTimeout = time.Duration(pt) * time.Millisecond
 	}
@@ -1037,6 +1118,16 @@ func runCase(cs map[string]any, dir string, w io.Writer) {
 			h.setAuto(on)
 		case "sleep":
 			time.Sleep(time.Duration(s.num("ms")) * time.Millisecond)
+		case "tick":
+			// let one of the loop's timers fire: autoReconnectInterval (15 s) or rescanWaitDuration (5 s)
+			d := 15300 * time.Millisecond
+			if s.str("what") == "rescan" {
+				d = 5200 * time.Millisecond
+			}
+			time.Sleep(d)
+			h.settle(100 * time.Millisecond)
+		case "connect":
+			// consumed in advance (connPlan): dials are not gated
 		case "obs":
 		}
 		h.observe()
